@@ -302,6 +302,8 @@ fn call_everything(case: &GCase, g: &GS, rng: &mut Rng, want_dump: bool) -> (u64
             });
         }
         r.call("all_pairs", format!("{},absent", w), || res(dijkstra::all_pairs(g, w, Some(absent.clone()), None, false, true), |m| format!("{}", m.len())));
+        r.call("all_pairs", format!("{},cutoff3,nopaths", w), || res(dijkstra::all_pairs(g, w, None, Some(3.0), false, false), |m| format!("{}", m.len())));
+        r.call("all_pairs", format!("{},target,nopaths", w), || res(dijkstra::all_pairs(g, w, names.last().cloned(), None, false, false), |m| format!("{}", m.len())));
         r.call("all_pairs", format!("{},cutoff1", w), || res(dijkstra::all_pairs(g, w, names.first().cloned(), Some(1.0), true, true), |m| format!("{}", m.len())));
         r.call("multi_source", format!("{},all", w), || res(dijkstra::multi_source(g, w, names.clone(), None, None, false, true), |m| format!("{}", m.len())));
         r.call("multi_source", format!("{},empty", w), || res(dijkstra::multi_source(g, w, vec![], None, None, false, true), |m| format!("{}", m.len())));
@@ -311,6 +313,9 @@ fn call_everything(case: &GCase, g: &GS, rng: &mut Rng, want_dump: bool) -> (u64
             r.call("single_source", format!("{},{:?}", w, s), || res(dijkstra::single_source(g, w, s.clone(), None, None, false, true), |m| spi(dijkstra_info::conv(m))));
             let t = rng.pick(&with_absent).clone();
             r.call("single_source", format!("{},{:?},{:?},2.0", w, s, t), || res(dijkstra::single_source(g, w, s.clone(), Some(t.clone()), Some(2.0), rng_bool(s), true), |m| format!("{}", m.len())));
+            r.call("single_source", format!("{},{:?},{:?},None,false,false", w, s, t), || res(dijkstra::single_source(g, w, s.clone(), Some(t.clone()), None, false, false), |m| format!("{}", m.len())));
+            r.call("single_source", format!("{},{:?},None,3.0,false,false", w, s), || res(dijkstra::single_source(g, w, s.clone(), None, Some(3.0), false, false), |m| format!("{}", m.len())));
+            r.call("single_source", format!("{},{:?},None,3.0,true,false", w, s), || res(dijkstra::single_source(g, w, s.clone(), None, Some(3.0), true, false), |m| format!("{}", m.len())));
         }
     }
     // ---- readwrite
